@@ -547,7 +547,17 @@ def rule_skip_licence_intact(ctx):
             wbody, wst, wpath = block_of(w)
             # (i) anywhere inside the block that holds the rewrite (it is re-decided whenever that block runs), or
             # (ii) later, at a level that encloses the rewrite (it is re-decided on every path through the rewrite)
-            inside_same_block = any(any(x is w for x in ast.walk(s_)) for s_ in body)
+            # a write nested in a *sibling* branch that holds another rewrite belongs to that rewrite, not to this one
+            sibling_owned = False
+            for s_ in body:
+                if isinstance(s_, ast.If) and any(x is w for x in ast.walk(s_)) and not any(x is c for x in ast.walk(s_)):
+                    other = [y for y in ast.walk(s_) if isinstance(y, ast.Call) and isinstance(y.func, ast.Attribute) and isinstance(y.func.value, ast.Attribute)
+                             and y.func.value.attr == "_k" and y.func.attr != c.func.attr]
+                    for y in other:
+                        g = mps.find(y.func.attr)
+                        if g is not None and any(mu.sure for mu in ctx.eff.summary(g, {}, cls=mps).mut.get("self", ())):
+                            sibling_owned = True
+            inside_same_block = any(any(x is w for x in ast.walk(s_)) for s_ in body) and not sibling_owned
             encloses = w.lineno > c.lineno and all(p in path for p in wpath)
             if inside_same_block or encloses:
                 ok = True
